@@ -241,6 +241,7 @@ type clientRec struct {
 	EndMs     int64
 	Done      bool
 	Invalid   bool // request line rejected by net/http itself
+	CacheKey  string // the key pike derives from the request as parsed
 	Aborted   bool // handler panicked (net/http would abort the connection)
 	PanicVal  string
 	Code      int
@@ -268,6 +269,10 @@ type world struct {
 	ups       []*upReq
 	goids     map[int64]int // goroutine id -> client id
 	evictions []evictEv
+	evChecked int
+	resident  [2]map[string]bool // C11: keys each cache should hold in memory
+	cacheSize int
+	fullSeen  bool // some shard was filled to its limit
 	stores    [2]*memStore
 	cacheName [2]string
 }
@@ -526,6 +531,9 @@ func (w *world) startClient(op Op) *clientRec {
 			return
 		}
 		req.RemoteAddr = "192.0.2.1:1234"
+		w.mu.Lock()
+		c.CacheKey = req.Method + " " + req.Host + " " + req.RequestURI
+		w.mu.Unlock()
 		req.Header.Set("X-Req-Id", strconv.Itoa(c.ID))
 		if op.AE != "" {
 			req.Header.Set("Accept-Encoding", op.AE)
@@ -715,6 +723,7 @@ type trace struct {
 	Stuck     []int // clients not finished after the drain
 	Skipped   int
 	Evictions []evictEv
+	FullSeen  bool
 }
 
 func (w *world) pendingUps() []*upReq {
@@ -807,6 +816,7 @@ func runScenario(t *testing.T, sc Scenario, m *model) (tr *trace) {
 		}
 		w.mu.Lock()
 		tr.Clients, tr.Ups, tr.Evictions = w.clients, w.ups, w.evictions
+		tr.FullSeen = w.fullSeen
 		for _, c := range w.clients {
 			if !c.Done {
 				tr.Stuck = append(tr.Stuck, c.ID)
@@ -830,6 +840,10 @@ func runScenario(t *testing.T, sc Scenario, m *model) (tr *trace) {
 			}
 		}
 		applyCfg(sc.Cfg, tag)
+		w.cacheSize = sc.Cfg.CacheSize
+		if w.cacheSize <= 0 {
+			w.cacheSize = 1000
+		}
 		for i, n := range w.cacheName {
 			ci := i
 			if d := cache.GetDispatcher(n); d != nil {
@@ -941,10 +955,72 @@ func (w *world) handover(opIdx int, m *model) {
 }
 
 func (w *world) execOp(i int, op Op, m *model, tr *trace) {
+	w.execOp1(i, op, m, tr)
+	w.checkResidency(i, op, m)
+}
+
+// checkResidency (C11): after every operation the keys each cache holds in memory are
+// exactly those the history accounts for -- every key requested (GET/HEAD) since it was last
+// dropped or purged, never more than the configured size, and the index of every shard holds
+// as many keys as its recency list. A removal reported for a key that is not resident means
+// something else than the reported key was dropped.
+func (w *world) checkResidency(i int, op Op, m *model) {
+	w.mu.Lock()
+	evs := append([]evictEv{}, w.evictions[w.evChecked:]...)
+	w.evChecked = len(w.evictions)
+	w.mu.Unlock()
+	for _, ev := range evs {
+		if w.resident[ev.Cache] == nil || !w.resident[ev.Cache][ev.Key] {
+			m.viol("C11", "removed-key-not-resident", "op %d (%s): cache %d reported the removal of key %q, which was not resident (resident: %d keys)", i, op.K, ev.Cache, ev.Key, len(w.resident[ev.Cache]))
+			continue
+		}
+		delete(w.resident[ev.Cache], ev.Key)
+	}
+	size := w.cacheSize
+	for ci, name := range w.cacheName {
+		if w.shared && ci == 1 {
+			continue
+		}
+		d := cache.GetDispatcher(name)
+		if d == nil {
+			continue
+		}
+		lists, index := d.VerifLen(), d.VerifIndexLen()
+		total := 0
+		for j := range lists {
+			total += lists[j]
+			if index[j] != lists[j] {
+				m.viol("C11", "index-vs-list", "op %d (%s): shard %d of cache %d holds %d keys in its index but %d in its recency list (size %d)", i, op.K, j, ci, index[j], lists[j], size)
+			}
+		}
+		if total > size {
+			m.viol("C11", "resident-above-size", "op %d (%s): cache %d of size %d holds %d keys in memory", i, op.K, ci, size, total)
+		}
+		if total != len(w.resident[ci]) {
+			m.viol("C11", "resident-count", "op %d (%s): cache %d holds %d keys, the history accounts for %d (requested and neither dropped nor purged since)", i, op.K, ci, total, len(w.resident[ci]))
+		}
+		for j := range lists {
+			if lists[j] == size/len(lists) {
+				w.fullSeen = true
+			}
+		}
+	}
+}
+
+func (w *world) execOp1(i int, op Op, m *model, tr *trace) {
 	switch op.K {
 	case "req":
 		c := w.startClient(op)
 		synctest.Wait()
+		if k := w.keys[c.Key]; !c.Invalid && (k.Method == "GET" || k.Method == "HEAD") {
+			if w.resident[c.Cache] == nil {
+				w.resident[c.Cache] = map[string]bool{}
+			}
+			w.mu.Lock()
+			ck := c.CacheKey
+			w.mu.Unlock()
+			w.resident[c.Cache][ck] = true
+		}
 		m.step(i, "req", c, w.snapshot(i))
 	case "complete":
 		w.mu.Lock()
